@@ -226,8 +226,28 @@ type Op struct {
 	Name      string          `json:"name,omitempty"`      // error name
 	S         string          `json:"s,omitempty"`         // argument of the built-in error helpers
 	Ret       bool            `json:"ret,omitempty"`       // return this op's result from the handler immediately
-	N         int             `json:"n,omitempty"`         // read size / sleep ms
-	Data      []byte          `json:"data,omitempty"`      // write payload
+	// Go: hand the library a typed Go value whose JSON encoding is P instead of the raw JSON: "struct" struct{}{} |
+	// "ptr" &struct{}{} | "named" a named empty struct | "map" an empty map (all four need P = {}) | "typed" a pointer to a
+	// struct with tagged fields (needs P = {"a":7,"s":"x","o":null})
+	Go   string `json:"go,omitempty"`
+	N    int    `json:"n,omitempty"`    // read size / sleep ms
+	Data []byte `json:"data,omitempty"` // write payload
+}
+
+type scriptNamedEmpty struct{}
+
+type scriptTyped struct {
+	A int     `json:"a"`
+	S string  `json:"s"`
+	O *string `json:"o"`
+}
+
+// GoValueJSON is the JSON that the typed Go value of the given kind encodes to.
+func GoValueJSON(kind string) json.RawMessage {
+	if kind == "typed" {
+		return json.RawMessage(`{"a":7,"s":"x","o":null}`)
+	}
+	return json.RawMessage(`{}`)
 }
 
 // ScriptParams is what the scripted dispatcher expects as call parameters.
@@ -380,6 +400,18 @@ func (s *ScriptIface) VarlinkDispatch(ctx context.Context, c varlink.Call, metho
 		var params interface{}
 		if op.P != nil {
 			params = op.P
+		}
+		switch op.Go {
+		case "struct":
+			params = struct{}{}
+		case "ptr":
+			params = &struct{}{}
+		case "named":
+			params = scriptNamedEmpty{}
+		case "map":
+			params = map[string]interface{}{}
+		case "typed":
+			params = &scriptTyped{A: 7, S: "x"}
 		}
 		switch op.Op {
 		case "reply":
